@@ -92,10 +92,25 @@ func runLifetime(c C13Case, ev *Evid) (fs []Finding) {
 	var err error
 	expectFail := true
 	switch c.Mode {
-	case "healthy-open", "healthy-open-spawn", "healthy-open-unprivileged", "healthy-open-double-close":
+	case "healthy-open", "healthy-open-spawn", "healthy-open-unprivileged", "healthy-open-double-close", "healthy-open-mode0444", "healthy-open-synced":
 		os.WriteFile(path, valid, 0644)
+		if c.Mode == "healthy-open-mode0444" {
+			// a file without any write-permission bit (an archived metric): the checks run as root, whose default
+			// Open still gets a writable descriptor - and must still hold the file exclusively
+			os.Chmod(path, 0444)
+		}
 		db, err = openWT(path)
 		expectFail = false
+		if err == nil && c.Mode == "healthy-open-synced" {
+			// the lock lives as long as the handle, not until its first Sync (copy into a new file Syncs the
+			// header first and keeps writing through the same handle)
+			updateWT(db, 0, 1500000000, 1, 1500000000)
+			if serr := db.Sync(); serr != nil {
+				db.Close()
+				add("healthy-fails", "Sync: %v", serr)
+				return
+			}
+		}
 	case "healthy-create":
 		db, err = createWT(path, c13Layout)
 		expectFail = false
@@ -568,7 +583,7 @@ func runC13(c C13Case, ev *Evid) []Finding {
 func genC13(t *rapid.T) C13Case {
 	if rapid.IntRange(0, 9).Draw(t, "kind") < 8 {
 		c := C13Case{Kind: "lifetime"}
-		c.Mode = rapid.SampledFrom([]string{"healthy-open", "healthy-create", "healthy-open-unprivileged", "healthy-open-double-close", "open-empty", "open-truncated", "open-truncated", "open-corrupt", "open-corrupt", "open-short-body", "create-readonly-flag", "create-exists"}).Draw(t, "mode")
+		c.Mode = rapid.SampledFrom([]string{"healthy-open", "healthy-create", "healthy-open-unprivileged", "healthy-open-double-close", "healthy-open-mode0444", "healthy-open-synced", "open-empty", "open-truncated", "open-truncated", "open-corrupt", "open-corrupt", "open-short-body", "create-readonly-flag", "create-exists"}).Draw(t, "mode")
 		switch c.Mode {
 		case "open-truncated":
 			c.Cut = rapid.IntRange(1, 27).Draw(t, "cut")
